@@ -37,7 +37,7 @@ def main():
     ap.add_argument("--seed", default="1")
     ap.add_argument("--skip-suite", action="store_true")
     ap.add_argument("props", nargs="*")
-    a = ap.parse_args()
+    a = ap.parse_intermixed_args()
     res = {"patch": a.patch}
     if not clean():
         print("REPO NOT CLEAN - refusing")
@@ -57,7 +57,7 @@ def main():
             res["suite_passed"] = int(m.group(1)) if m else 0
             res["suite_failed"] = "failed" in out
         if a.demo:
-            rc, out = sh(f"/venv/bin/python {os.path.abspath(a.demo)}", os.path.dirname(os.path.abspath(a.demo)), {"PYTHONPATH": "/repo/src"}, timeout=600)
+            rc, out = sh(f"/venv/bin/python {os.path.abspath(a.demo)}", REPO, {"PYTHONPATH": "/repo/src:/repo"}, timeout=600)
             res["demo_with_change_exit"] = rc
         res["checks"] = {}
         for p in a.props:
@@ -71,7 +71,7 @@ def main():
         print("REPO NOT CLEAN AFTER RESTORE")
         return 2
     if a.demo:
-        rc, out = sh(f"/venv/bin/python {os.path.abspath(a.demo)}", os.path.dirname(os.path.abspath(a.demo)), {"PYTHONPATH": "/repo/src"}, timeout=600)
+        rc, out = sh(f"/venv/bin/python {os.path.abspath(a.demo)}", REPO, {"PYTHONPATH": "/repo/src:/repo"}, timeout=600)
         res["demo_without_change_exit"] = rc
     print(json.dumps(res, indent=1))
     caught = [p for p, r in res.get("checks", {}).items() if r["exit"] == 1]
